@@ -24,12 +24,13 @@ def PlainPut (p : PutReq) : Prop :=
 
 /-- The transactions Kubernetes issues, as the explicit well-shapedness predicate: the compare is
 `mod(k) = n` on the key the ops work on, no `range_end` anywhere, the Get is plain, the put carries no
-flags, a guarded delete has a positive expectation. (Lease, limit / sort order / `serializable` of the
+flags and HAS A VALUE (a write without a value is refused by the backend before a revision is dealt, /repo
+f2a549c), a guarded delete has a positive expectation. (Lease, limit / sort order / `serializable` of the
 point Get, the delete's `prev_kv` are free.) -/
 inductive Canonical : TxnReq → Prop where
-  | create (c : Compare) (p : PutReq) : ModCmp c p.key 0 → PlainPut p →
+  | create (c : Compare) (p : PutReq) : ModCmp c p.key 0 → PlainPut p → p.val ≠ [] →
       Canonical { compare := [c], success := [.put p], failure := [] }
-  | update (c : Compare) (p : PutReq) (g : RangeReq) (n : Int) : ModCmp c p.key n → PlainPut p →
+  | update (c : Compare) (p : PutReq) (g : RangeReq) (n : Int) : ModCmp c p.key n → PlainPut p → p.val ≠ [] →
       PlainGet g p.key → Canonical { compare := [c], success := [.put p], failure := [.range g] }
   | gdelete (c : Compare) (d : DelReq) (g : RangeReq) (n : Int) : ModCmp c d.key n → 0 < n → d.key ≠ [] →
       d.rangeEnd = [] → PlainGet g d.key → Canonical { compare := [c], success := [.del d], failure := [.range g] }
@@ -565,30 +566,32 @@ theorem shimTxn_cases (c : Cfg) (s : BState) (t : TxnReq) :
       obtain ⟨a, s'⟩ := pr
       simp only
       cases shapeDelete a <;> rfl
-  | update rev key val lease => simp [backendCall, shapeTxn, shimUpdate, runCall]
+  | update rev key val lease => simp [backendCall, shapeTxn, shimUpdate, runCall, BCall.emptyValue]
   | compact => simp [backendCall, shapeTxn]
   | unsupported => simp [backendCall, shapeTxn]
 
-theorem shimCreate_fst (c : Cfg) (s : BState) (p : PutReq) (hp : PlainPut p) :
+theorem shimCreate_fst (c : Cfg) (s : BState) (p : PutReq) (hp : PlainPut p) (hv : p.val ≠ []) :
     (shimCreate c s p).1 = match (doCreate c s p.key p.val []).1 with
       | .ok rev => .ok { ok := true, hdr := rev, resps := [.put rev], wrote := true }
       | .condFailed hdr _ => .ok { ok := false, hdr := hdr, resps := [.put hdr], wrote := false }
       | .notFound hdr => .ok { ok := false, hdr := hdr, resps := [.put hdr], wrote := false }
       | .error e => .error (.backend e) := by
   obtain ⟨_, h1, h2, h3⟩ := hp
+  have hve : p.val.isEmpty = false := by cases hp : p.val <;> simp_all
   generalize hd : doCreate c s p.key p.val [] = d
   obtain ⟨r, s'⟩ := d
-  cases r <;> simp [shimCreate, runCall, ansOfWrite, shapeCreate, h1, h2, h3, hd]
+  cases r <;> simp [shimCreate, runCall, BCall.emptyValue, hve, ansOfWrite, shapeCreate, h1, h2, h3, hd]
 
-theorem shimUpdate_fst (c : Cfg) (s : BState) (rev : Int) (k v : Bytes) :
+theorem shimUpdate_fst (c : Cfg) (s : BState) (rev : Int) (k v : Bytes) (hv : v ≠ []) :
     (shimUpdate c s rev k v).1 = match (doUpdate c s k v (toU64 rev) []).1 with
       | .ok r => .ok { ok := true, hdr := r, resps := [.put r], wrote := true }
       | .condFailed hdr kv => .ok { ok := false, hdr := hdr, resps := [.range hdr kv.toList 0 false], wrote := false }
       | .notFound hdr => .ok { ok := false, hdr := hdr, resps := [.range hdr [] 0 false], wrote := false }
       | .error e => .error (.backend e) := by
+  have hve : v.isEmpty = false := by cases v <;> simp_all
   generalize hd : doUpdate c s k v (toU64 rev) [] = d
   obtain ⟨r, s'⟩ := d
-  cases r <;> simp [shimUpdate, runCall, ansOfWrite, shapeUpdate, hd]
+  cases r <;> simp [shimUpdate, runCall, BCall.emptyValue, hve, ansOfWrite, shapeUpdate, hd]
 
 theorem shimDelete_fst (c : Cfg) (s : BState) (rev : Int) (k : Bytes) :
     (shimDelete c s rev k).1 = match (doDelete c s k (toU64 rev) []).1 with
@@ -598,7 +601,7 @@ theorem shimDelete_fst (c : Cfg) (s : BState) (rev : Int) (k : Bytes) :
       | .error e => .error (.backend e) := by
   generalize hd : doDelete c s k (toU64 rev) [] = d
   obtain ⟨r, s'⟩ := d
-  cases r <;> simp [shimDelete, runCall, ansOfWrite, shapeDelete, hd]
+  cases r <;> simp [shimDelete, runCall, BCall.emptyValue, ansOfWrite, shapeDelete, hd]
 
 theorem curKv_some {c : Cfg} {s : BState} {k k' v : Bytes} {r : Nat} (h : curKv c s k = some (k', v, r)) :
     k' = k ∧ r ≠ 0 := by
@@ -846,7 +849,7 @@ def Agree (c : Cfg) (s : BState) (m : Mvcc) (t : TxnReq) : Prop :=
   ∃ r r' m', (shimTxn c s t).1 = .ok r ∧ refTxn m t = .ok (r', m') ∧ r.obs t = r'.obs t
 
 theorem sound_create (c : Cfg) (s : BState) (m : Mvcc) (cm : Compare) (p : PutReq)
-    (hc : ModCmp cm p.key 0) (hp : PlainPut p) (hw : WHyp c s p.key) (ha : AbsAt c s m p.key) :
+    (hc : ModCmp cm p.key 0) (hp : PlainPut p) (hv : p.val ≠ []) (hw : WHyp c s p.key) (ha : AbsAt c s m p.key) :
     Agree c s m { compare := [cm], success := [.put p], failure := [] } := by
   have hshim : (shimTxn c s { compare := [cm], success := [.put p], failure := [] }).1 =
       match curKv c s p.key with
@@ -855,7 +858,7 @@ theorem sound_create (c : Cfg) (s : BState) (m : Mvcc) (cm : Compare) (p : PutRe
     rw [shimTxn_cases]
     rw [classify_create hc]
     simp only
-    rw [shimCreate_fst c s p hp, doCreate_fst c s p.key p.val hw]
+    rw [shimCreate_fst c s p hp hv, doCreate_fst c s p.key p.val hw]
     cases curKv c s p.key <;> rfl
   have href := ref_create m cm p hc hp ha.nodup (by
     intro e he
@@ -873,8 +876,8 @@ theorem sound_create (c : Cfg) (s : BState) (m : Mvcc) (cm : Compare) (p : PutRe
     exact ⟨_, _, m', hshim, hm', by simp [TxnResp.obs, readsOf]⟩
 
 theorem sound_update_in (c : Cfg) (s : BState) (m : Mvcc) (cm : Compare) (p : PutReq) (g : RangeReq) (n : Int)
-    (hc : ModCmp cm p.key n) (h0 : 0 ≤ n) (hle : n ≤ s.dealt) (hp : PlainPut p) (hg : PlainGet g p.key)
-    (hw : WHyp c s p.key) (ha : AbsAt c s m p.key) :
+    (hc : ModCmp cm p.key n) (h0 : 0 ≤ n) (hle : n ≤ s.dealt) (hp : PlainPut p) (hv : p.val ≠ [])
+    (hg : PlainGet g p.key) (hw : WHyp c s p.key) (ha : AbsAt c s m p.key) :
     Agree c s m { compare := [cm], success := [.put p], failure := [.range g] } := by
   have hb := hw.bound
   have hu : toU64 n = n.toNat := toU64_of_nonneg h0 (by omega)
@@ -891,7 +894,7 @@ theorem sound_update_in (c : Cfg) (s : BState) (m : Mvcc) (cm : Compare) (p : Pu
     rw [shimTxn_cases]
     rw [classify_update hc hp hg]
     simp only
-    rw [shimUpdate_fst c s n p.key p.val, hu, doUpdate_fst c s p.key p.val n.toNat hw hexp]
+    rw [shimUpdate_fst c s n p.key p.val hv, hu, doUpdate_fst c s p.key p.val n.toNat hw hexp]
     cases curKv c s p.key with
     | none =>
       simp only
@@ -1065,18 +1068,18 @@ theorem toU64_far {n : Int} {dealt : Nat} (hlo : -2 ^ 63 ≤ n) (hhi : n < 2 ^ 6
 
 theorem sound_update (c : Cfg) (s : BState) (m : Mvcc) (cm : Compare) (p : PutReq) (g : RangeReq) (n : Int)
     (hc : ModCmp cm p.key n) (hlo : -2 ^ 63 ≤ n) (hhi : n < 2 ^ 63) (h63 : s.dealt + 1 < 2 ^ 63)
-    (hp : PlainPut p) (hg : PlainGet g p.key) (hw : WHyp c s p.key) (ha : AbsAt c s m p.key) :
+    (hp : PlainPut p) (hv : p.val ≠ []) (hg : PlainGet g p.key) (hw : WHyp c s p.key) (ha : AbsAt c s m p.key) :
     (∃ e, (shimTxn c s { compare := [cm], success := [.put p], failure := [.range g] }).1 = .error e) ∨
     Agree c s m { compare := [cm], success := [.put p], failure := [.range g] } := by
   by_cases hin : 0 ≤ n ∧ n ≤ s.dealt
-  · exact .inr (sound_update_in c s m cm p g n hc hin.1 hin.2 hp hg hw ha)
+  · exact .inr (sound_update_in c s m cm p g n hc hin.1 hin.2 hp hv hg hw ha)
   · left
     have hfar := toU64_far hlo hhi h63 (dealt := s.dealt) (by omega)
     refine ⟨.backend .drift, ?_⟩
     rw [shimTxn_cases]
     rw [classify_update hc hp hg]
     simp only
-    rw [shimUpdate_fst c s n p.key p.val, doUpdate_drift c s p.key p.val (toU64 n) hfar]
+    rw [shimUpdate_fst c s n p.key p.val hv, doUpdate_drift c s p.key p.val (toU64 n) hfar]
 
 theorem sound_gdelete (c : Cfg) (s : BState) (m : Mvcc) (cm : Compare) (d : DelReq) (g : RangeReq) (n : Int)
     (hc : ModCmp cm d.key n) (h0 : 0 < n) (hhi : n < 2 ^ 63) (h63 : s.dealt + 1 < 2 ^ 63) (hk : d.key ≠ [])
@@ -1130,6 +1133,29 @@ theorem shimCreate_flags (c : Cfg) (s : BState) (p : PutReq)
   unfold shimCreate
   rcases h with h | h | h <;> simp [h]
 
+/-- a transaction whose backend call carries no value is answered with the backend's refusal and nothing is
+executed: no revision is dealt, the state is unchanged (/repo f2a549c) -/
+theorem shimTxn_empty_value (c : Cfg) (s : BState) (t : TxnReq) (call : BCall)
+    (h : backendCall (classify t) = some call) (he : call.emptyValue = true) :
+    shimTxn c s t = (.error (.backend .other), s) := by
+  unfold shimTxn
+  rw [h]
+  simp only [runCall, he, if_true]
+  cases hcl : classify t with
+  | create p =>
+    rw [hcl] at h
+    by_cases hf : (p.ignoreLease || p.ignoreValue || p.prevKv) = true
+    · simp [backendCall, hf] at h
+    · simp [shapeTxn, hf, shapeCreate]
+  | delete rev key guarded =>
+    rw [hcl] at h
+    simp only [backendCall, Option.some.injEq] at h
+    subst h
+    simp [BCall.emptyValue] at he
+  | update rev key val lease => simp [shapeTxn, shapeUpdate]
+  | compact => rw [hcl] at h; simp [backendCall] at h
+  | unsupported => rw [hcl] at h; simp [backendCall] at h
+
 theorem classify_none {t : TxnReq} (h1 : isCreate t = none) (h2 : isDelete t = none) (h3 : isUpdate t = none) :
     classify t = if isCompact t then .compact else .unsupported := by
   simp [classify, h1, h2, h3]
@@ -1140,6 +1166,7 @@ theorem txn_cases (t : TxnReq) (hreq : ReqOK t) :
     (classify t = .unsupported) ∨ (classify t = .compact) ∨
     (∃ cm p, t = { compare := [cm], success := [.put p], failure := [] } ∧ ModCmp cm p.key 0 ∧
       (p.ignoreLease = true ∨ p.ignoreValue = true ∨ p.prevKv = true)) ∨
+    (∃ call, backendCall (classify t) = some call ∧ call.emptyValue = true) ∨
     Canonical t := by
   cases h1 : isCreate t with
   | some p =>
@@ -1147,28 +1174,36 @@ theorem txn_cases (t : TxnReq) (hreq : ReqOK t) :
     by_cases hf : p.ignoreLease = true ∨ p.ignoreValue = true ∨ p.prevKv = true
     · exact .inr (.inr (.inl ⟨cm, p, rfl, hc, hf⟩))
     · have hk : p.key ≠ [] := hreq.skeys (.put p) (by simp)
-      have hp : PlainPut p := by
-        refine ⟨hk, ?_, ?_, ?_⟩
-        · cases h : p.prevKv <;> simp_all
-        · cases h : p.ignoreValue <;> simp_all
-        · cases h : p.ignoreLease <;> simp_all
-      exact .inr (.inr (.inr (.create cm p hc hp)))
+      have f1 : p.prevKv = false := by cases h : p.prevKv <;> simp_all
+      have f2 : p.ignoreValue = false := by cases h : p.ignoreValue <;> simp_all
+      have f3 : p.ignoreLease = false := by cases h : p.ignoreLease <;> simp_all
+      by_cases hv : p.val = []
+      · -- a create without a value: refused by the backend before a revision is dealt
+        refine .inr (.inr (.inr (.inl ⟨.create p.key p.val p.lease, ?_, by simp [BCall.emptyValue, hv]⟩)))
+        rw [classify_create hc]
+        simp [backendCall, f1, f2, f3]
+      · exact .inr (.inr (.inr (.inr (.create cm p hc ⟨hk, f1, f2, f3⟩ hv))))
   | none =>
     cases h2 : isDelete t with
     | some x =>
       obtain ⟨n, k, gd⟩ := x
       rcases isDelete_inv h2 with ⟨_, _, g, d, rfl, _, he, hg⟩ | ⟨_, cm, g, d, rfl, _, hc, h0, he, hg⟩
       · have hk : d.key ≠ [] := hreq.skeys (.del d) (by simp)
-        exact .inr (.inr (.inr (.udelete g d hk he hg)))
+        exact .inr (.inr (.inr (.inr (.udelete g d hk he hg))))
       · have hk : d.key ≠ [] := hreq.skeys (.del d) (by simp)
-        exact .inr (.inr (.inr (.gdelete cm d g n hc h0 hk he hg)))
+        exact .inr (.inr (.inr (.inr (.gdelete cm d g n hc h0 hk he hg))))
     | none =>
       cases h3 : isUpdate t with
       | some x =>
         obtain ⟨n, k, v, l⟩ := x
         obtain ⟨cm, p, g, rfl, hc, f1, f2, f3, hg⟩ := isUpdate_inv h3
         have hk : p.key ≠ [] := hreq.skeys (.put p) (by simp)
-        exact .inr (.inr (.inr (.update cm p g n hc ⟨hk, f1, f2, f3⟩ hg)))
+        by_cases hv : p.val = []
+        · -- an update without a value: refused by the backend before a revision is dealt
+          refine .inr (.inr (.inr (.inl ⟨.update p.key p.val (toU64 n) p.lease, ?_, by simp [BCall.emptyValue, hv]⟩)))
+          rw [classify_update' hc f1 f2 f3 hg]
+          rfl
+        · exact .inr (.inr (.inr (.inr (.update cm p g n hc ⟨hk, f1, f2, f3⟩ hv hg))))
       | none =>
         rw [classify_none h1 h2 h3]
         cases isCompact t <;> simp
@@ -1188,11 +1223,11 @@ theorem canonical_sound (c : Cfg) (s : BState) (m : Mvcc) (t : TxnReq) (hcan : C
     (hw : WHyp c s (opKey t)) (ha : AbsAt c s m (opKey t)) :
     (∃ e, (shimTxn c s t).1 = .error e) ∨ Agree c s m t := by
   cases hcan with
-  | create cm p hc hp => exact .inr (sound_create c s m cm p hc hp hw ha)
-  | update cm p g n hc hp hg =>
+  | create cm p hc hp hv => exact .inr (sound_create c s m cm p hc hp hv hw ha)
+  | update cm p g n hc hp hv hg =>
     have hi := hints cm (by simp)
     rw [hc.2.2.2.2] at hi
-    exact sound_update c s m cm p g n hc hi.1 hi.2 h63 hp hg hw ha
+    exact sound_update c s m cm p g n hc hi.1 hi.2 h63 hp hv hg hw ha
   | gdelete cm d g n hc h0 hk he hg =>
     have hi := hints cm (by simp)
     rw [hc.2.2.2.2] at hi
